@@ -293,3 +293,63 @@ Qed.
 
 Theorem factorwise_bound : forall e a, In a (leafwise e) -> a <= storage e.
 Proof. intros e. exact (proj1 leafwise_mutual e). Qed.
+
+(* ---- Kronecker products of RECTANGULAR dense factors: the code contracts the factors left to right, so after i factors
+   the live tensor has (rows of the first i factors) x (columns of the remaining ones) x k entries.  The largest of
+   these prefix sizes is a function of the factor shapes and of their ORDER alone; every allocation of the product is
+   bounded by it (for square factors it is n * k).  A tall factor placed before a wide one makes the prefix rows_1 *
+   cols_2 large: that is what the code does, and what this bound predicts. ---- *)
+Fixpoint kmax (pre : N) (fs : sops) : N :=
+  match fs with
+  | SNil => pre
+  | SCons a r => N.max (pre * cols a * pcols r) (kmax (pre * rows a) r)
+  end.
+
+Fixpoint all_dense (fs : sops) : bool :=
+  match fs with SNil => true | SCons (SDense _ _) r => all_dense r | SCons _ _ => false end.
+
+Lemma kmax_first : forall fs pre, pre * pcols fs <= kmax pre fs.
+Proof.
+  intros [|a r] pre; cbn [kmax pcols].
+  - lia.
+  - rewrite N.mul_assoc. apply N.le_max_l.
+Qed.
+
+Lemma kmax_last : forall fs pre, pre * prows fs <= kmax pre fs.
+Proof.
+  fix IH 1. intros [|a r] pre; cbn [kmax prows].
+  - lia.
+  - etransitivity; [|apply N.le_max_r]. rewrite N.mul_assoc. apply IH.
+Qed.
+
+Lemma kron_rect_allocs : forall fs pre k, all_dense fs = true -> bounded (kmax pre fs * k) (kron_allocs pre fs k).
+Proof.
+  fix IH 1. intros [|a r] pre k H.
+  - cbn. apply bounded_nil.
+  - destruct a; try discriminate. cbn [all_dense] in H.
+    cbn [kron_allocs kmax cols rows allocs].
+    apply bounded_cons.
+    + pose proof (N.le_max_l (pre * n * pcols r) (kmax (pre * m) r)). nia.
+    + apply bounded_app.
+      * apply bounded_cons; [|apply bounded_nil].
+        pose proof (kmax_first r (pre * m)). pose proof (N.le_max_r (pre * n * pcols r) (kmax (pre * m) r)). nia.
+      * eapply bounded_le; [|apply IH; exact H].
+        pose proof (N.le_max_r (pre * n * pcols r) (kmax (pre * m) r)). nia.
+Qed.
+
+Theorem kron_rect_bound : forall fs k, all_dense fs = true ->
+  forall a, In a (allocs (SKron fs) k) -> a <= kmax 1 fs * k.
+Proof.
+  intros fs k H. cbn [allocs]. apply bounded_app.
+  - now apply kron_rect_allocs.
+  - apply bounded_cons; [|apply bounded_nil]. pose proof (kmax_last fs 1). nia.
+Qed.
+
+(* square factors: the order-aware bound is n * k *)
+Lemma kmax_square : forall fs pre, all_square fs = true -> kmax pre fs = pre * prows fs.
+Proof.
+  fix IH 1. intros [|a r] pre H; cbn [kmax prows].
+  - lia.
+  - cbn [all_square] in H. apply andb_true_iff in H. destruct H as (E & Hr). apply N.eqb_eq in E.
+    rewrite (IH r (pre * rows a) Hr), <- E, <- (all_square_prows r Hr). rewrite N.mul_assoc. apply N.max_id.
+Qed.
